@@ -115,7 +115,7 @@ class History:
             self.gen.max_depth = max_depth
         self.always_consistent = always_consistent
         env.reset(seed)
-        self.sess = Session(cfg, seed, always_consistent).new()
+        self.sess = driver.first_session(cfg, seed, always_consistent).new()
         self.refused = []
         self.rebuilds = 0
 
